@@ -504,12 +504,20 @@ def run(cx):
     # no fold hands out an integer wider than the evaluator's own bound: a family of powers and shifts whose results need
     # about 5000 bits must be declined whatever the base (1 << n grows although 1 ** n does not)
     evc_ = pm.func("_eval_const")
-    wide = ["1 << 5000", "-1 << 5000", "True << 5000", "2 << 5000", "3 << 4999", "2 ** 5000", "-2 ** 5001", "3 ** 3200", "10 ** 1600", "(1 << 3000) << 3000", "7 ** 1800", "(2 ** 64) ** 80"]
+    wide = ["1 << 5000", "-1 << 5000", "True << 5000", "2 << 5000", "3 << 4999", "2 ** 5000", "-2 ** 5001", "3 ** 3200", "10 ** 1600", "(1 << 3000) << 3000", "7 ** 1800", "(2 ** 64) ** 80",
+            # towers whose every exponent / shift count is small: the intermediate results are what grows
+            "((9 ** 64) ** 64) ** 64", "(((2 ** 60) ** 60) ** 60) ** 60", "((3 ** 64) ** 64) ** 2", "((1 << 64) ** 64) ** 64", "((5 ** 40) ** 40) << 3", "(2 ** 63) ** 63 ** 2"]
     import operator as _op
     applied = []
 
     def _rec(fn_):
         def w(a, b):
+            if isinstance(a, int) and isinstance(b, int) and b >= 0:
+                est = (abs(a).bit_length() * b if abs(a) > 1 else 1) if fn_.__name__ == "pow" else a.bit_length() + b
+                if est > 20000:
+                    # the checker does not compute the huge value itself: the application is the evidence
+                    applied.append((fn_.__name__, a, b, est))
+                    raise dl.Raised("MemoryError", "result too wide for the checker")
             res = fn_(a, b)
             applied.append((fn_.__name__, a, b, res.bit_length() if isinstance(res, int) else 0))
             return res
